@@ -31,11 +31,12 @@ CHECKS["C03"] = dict(
 CHECKS["C04"] = dict(
     text="Lean theorem parse_append_closers: appending any prefix of the pending closers to a token list never changes the parse "
          "(every structure, modifier and parent kind, any nesting), lexer lemmas for unterminated string / compressed literals at end "
-         "of input, and the source-level truncation_invariant_partial. Tie: lexer/parser correspondence; direct oracle "
+         "of input, and the source-level truncation_invariant. Function definitions/references are inside the theorem under the recursive "
+         "predicate atOK (an @ still in its header at the end of its token list has no opener of its own; @f[ vs @f[]; really do differ), "
+         "evaluated by the model on every generated @ program and checked against the real parser. Tie: lexer/parser correspondence; direct oracle "
          "parse(closed) == parse(truncated) for every number of dropped closers on grammar-generated programs (thorough: all programs "
          "of <= 5 symbols over a 16-symbol alphabet, plus 300 000 sampled programs of 6..8 symbols).",
-    note=COMMON_NOTE + "Partial in one named way: the parser theorem is proved for token lists without @ (function definitions/references); "
-         "@ programs are covered by the correspondence and the oracle only.",
+    note=COMMON_NOTE + "Hypothesis atOK excludes exactly the unclosed @ headers that contain an opener (outside the documented \\w+ names).",
     technique="Lean 4 proof (state-machine view of _get_branches + induction on the parser's recursion); differential correspondence; truncation oracle",
     ref="§5 C04")
 CHECKS["C05"] = dict(
